@@ -15,6 +15,7 @@ REGISTRY = {
     "C19": "treemerge",
     "C20": "serialize",
     "C01": "objectstore",
+    "C02": "roundtrip",
     "C03": "treecanon",
     "C04": "objectstore",
     "C05": "checkoutobj",
